@@ -244,6 +244,18 @@ func (t *simTransport) Send(ctx context.Context, d []byte) ([]byte, error) {
 		}
 	case "raw":
 		reply = unhex(arg)
+	case "setbytes":
+		// overwrite bytes of the genuine reply: off=val;off=val
+		if reply != nil {
+			reply = append([]byte{}, reply...)
+			for _, kv := range strings.Split(arg, ";") {
+				var off, val int
+				fmt.Sscanf(kv, "%d=%d", &off, &val)
+				if off < len(reply) {
+					reply[off] = byte(val)
+				}
+			}
+		}
 	case "forge":
 		// replace the genuine reply by a forged one for the same request
 		ss := t.b.Sessions()
